@@ -9,6 +9,7 @@ import (
 	"path/filepath"
 	"sort"
 	"strings"
+	"time"
 
 	"github.com/jhalter/mobius/internal/mobius"
 	rp "github.com/jhalter/mobius/verifsim/refproto"
@@ -552,6 +553,25 @@ func runC15(w *World) {
 				if _, exists := model[l]; !exists {
 					continue
 				}
+				// somebody logs in with that account at the instant it is deleted: the login is refused, or the session
+				// is ended by the deletion - what must not remain is a live session of an account that no longer exists
+				var racer *Client
+				racerDone, racerIn := false, false
+				var rq simrt.WaitQ
+				if step%2 == 0 {
+					probeSeq++
+					racer = w.NewClient(fmt.Sprintf("racer%d", probeSeq), fmt.Sprintf("10.5.%d.%d", probeSeq/250, probeSeq%250+1))
+					rpw := model[l].Pw
+					mid := 5000 + step
+					w.Sim.Go(fmt.Sprintf("racer%d", step), false, func() {
+						w.Meet(mid, 2)
+						racerIn = racer.Login(l, rpw, "", 0)
+						racerDone = true
+						simrt.Wake(&rq)
+					})
+					w.Meet(mid, 2)
+					Delay(op.N[0] * 7 % 40)
+				}
 				if op.K == "deluser" {
 					if !okRep(admin.DeleteUser(l)) {
 						return
@@ -560,6 +580,18 @@ func runC15(w *World) {
 					return
 				}
 				delete(model, l)
+				if racer != nil {
+					for !racerDone {
+						simrt.Park(&rq)
+					}
+					simrt.Sleep(8 * time.Second) // the deletion cuts the account's sessions off after a short notice period
+					w.Probe("logins_racing_a_deletion")
+					if racerIn && !racer.Closed {
+						w.Violate("c15-session-of-deleted-account-lives", "%s: a login for %q was in flight while the account was deleted; the account is gone, the session is still connected", when, l)
+						return
+					}
+					racer.Disconnect()
+				}
 			case "batch-mixed":
 				nl, ml, dl, a, pw := L(op.N[0]), L(op.N[1]), L(op.N[2]), accessFromInt(op.N[3]), c15Pws[op.N[4]]
 				_, e1 := model[nl]
